@@ -37,6 +37,7 @@ def plan(tier, seed):
         shards.append({'name': 'vw-%d' % i, 'fn': 'shard_vw', 'args': {'part': i}})
     shards.append({'name': 'stream', 'fn': 'shard_stream', 'args': {}})
     shards.append({'name': 'namespace-map', 'fn': 'shard_namespace', 'args': {}})
+    shards.append({'name': 'raw-dump-preparation', 'fn': 'shard_raw_dump', 'args': {}})
     return shards
 
 
@@ -220,3 +221,47 @@ def shard_namespace(sh):
         sh.check('namespace-map', dict(mp) == exp_map and set(fl) == exp_float and list(mp) == list(exp_map), 'namespace-map!=declared-mapping',
                  lambda: {'lines': lines, 'mapping': dict(mp), 'expected_mapping': exp_map, 'float_set': sorted(fl), 'expected_float_set': sorted(exp_float)})
         sh.case(('ns', core.h64(lines)), n > 0, 'namespace-map', sample={'lines': lines[:5], 'mapping': dict(mp), 'float_features': sorted(fl)} if t % 20 == 0 else None)
+
+
+def shard_raw_dump(sh):
+    """ob-raw-dump source preparation (header file + tab-separated part files -> raw_dump.tsv): well-formed parts keep every field in
+    its column; parts whose lines do not have the header's width are refused as a whole, never shifted into other columns."""
+    from outrank.core_utils import parse_ob_raw_feature_information, generic_line_parser
+    rng = sh.rng('rawdump')
+    for t in range(20 if sh.tier == 'quick' else 100):
+        k = rng.randint(2, 6)
+        header = ['label'] + ['col%d' % i for i in range(k - 1)]
+        root = os.path.join(sh.scratch, 'raw-%d' % t)
+        os.makedirs(os.path.join(root, 'raw_data', '0_header'), exist_ok=True)
+        os.makedirs(os.path.join(root, 'raw_data', '1_train', 'part0'), exist_ok=True)
+        with open(os.path.join(root, 'raw_data', '0_header', 'header.csv'), 'w') as f:
+            f.write('\t'.join(header) + '\n')
+        kind = rng.choice(['well-formed', 'well-formed', 'too-wide', 'too-narrow'])
+        width = {'well-formed': k, 'too-wide': k + 1, 'too-narrow': k - 1}[kind]
+        rows = [[rng.choice(['a', 'b', 'SI', 'phone', '07', 'x y', 'é', '1']) for _ in range(width)] for _ in range(rng.choice([2, 5, 30]))]
+        with open(os.path.join(root, 'raw_data', '1_train', 'part0', 'dump0.tsv'), 'w') as f:
+            f.write('\t'.join('h%d' % i for i in range(width)) + '\n')       # the parts carry their own header line
+            for r in rows:
+                f.write('\t'.join(r) + '\n')
+        try:
+            info = parse_ob_raw_feature_information(root)
+            refused = False
+        except (AssertionError, Exception) as e:  # noqa: BLE001
+            refused = True
+            err = repr(e)[:200]
+        if kind == 'well-formed':
+            if refused:
+                sh.fail('tsv-roundtrip', 'raw-dump:well-formed-parts-refused', {'error': err, 'header': header, 'rows': rows[:3]})
+                continue
+            args = pipe.make_args(data_source='ob-raw-dump')
+            with open(info.data_path) as f:
+                lines = f.read().split('\n')
+            parsed = [list(generic_line_parser(ln + '\n', '\t', args, None, info.column_names)) for ln in lines[1:] if ln != '']
+            sh.check('tsv-roundtrip', info.column_names == header and parsed == rows, 'raw-dump:fields-not-in-their-columns', lambda: {'header': header, 'rows': rows[:4], 'dump_rows': parsed[:4], 'columns': info.column_names})
+        else:
+            shifted = None
+            if not refused:
+                with open(info.data_path) as f:
+                    shifted = f.read().split('\n')[1:4]
+            sh.check('wrong-count-rejected', refused, 'raw-dump:wrong-width-parts-accepted-and-shifted', lambda: {'kind': kind, 'header': header, 'part_rows': rows[:3], 'dump_lines': shifted})
+        sh.case(('raw-dump', kind, k, t), kind != 'well-formed', 'raw-dump/' + kind, sample={'kind': kind, 'header': header, 'first_row': rows[0]} if t < 3 else None)
